@@ -16,7 +16,7 @@ pub static PROP: Prop = Prop {
     rule: "inputs up to 3116 bytes built to keep many modes competitive: periodic alternations of period 1-7 over {digit, upper, lower, X12 special, EDIFACT punctuation, control, high byte}, random class walks, long digit / upper runs with single interruptions, plus the class-run generator; x mode subsets x lists; the planner is run through data::encodation_plan and its instrumented counters (hook H1) are read: live plans after pruning <= 36 (number of (start mode, current mode) pairs), Plan::step calls <= 216*(n+1)+6, iterations <= n+1; no stopwatch; non-trivial = n >= 200 and >= 3 character classes; distinct by (input, configuration)",
     assumptions: &["hook H1 counters: steps (next to both Plan::step call sites), max_live (after remove_hopeless_cases), iterations", "the constants follow from the statement's own bound of 36 (start, current) pairs: each live plan steps once and spawns at most 5 stepped switches per character"],
     extra: super::no_extra,
-    fuzz_runs: 20000,
+    fuzz_runs: 60000,
 };
 
 pub fn check(c: &EncCase) -> Verdict {
